@@ -128,6 +128,14 @@ async fn serve(listener: TcpListener, msgs: Vec<Msg>, close: Close, collect_writ
         },
         Close::Abrupt => {
             let _ = ws.flush().await;
+            // keep consuming what the client still sends (its automatic pongs for pings it has yet to read) until it
+            // falls silent: dropping the socket with unread data, or while the client is about to write, turns the
+            // closure into a TCP reset / EPIPE on the client's own write - TCP semantics, not the adaptor's
+            while let Ok(Some(Ok(m))) = tokio::time::timeout(Duration::from_millis(250), ws.next()).await {
+                if let Message::Binary(_) = m {
+                    got.push(m);
+                }
+            }
             drop(ws);
         },
     }
@@ -408,6 +416,118 @@ pub fn run_backpressure_writes(c: &Corpus, r: &mut Rng, compressed: bool, nframe
     Ok(())
 }
 
+/// A keep-alive arrives while the peer is not reading and the send path is full; the read that answers it is
+/// cancelled (select!/timeout) while the reply is queued in the adaptor but not flushed. Once the peer reads again
+/// and the client only calls read(), exactly one reply message must still leave - as it would over TCP.
+pub fn run_backpressure_keepalive(compressed: bool, cancel_after_ms: u64, p: &mut Part) -> Result<(), String> {
+    use insim::{
+        identifiers::RequestId,
+        insim::{Tiny, TinyType},
+        Packet,
+    };
+    use tokio::net::TcpSocket;
+    let rt = tokio::runtime::Builder::new_current_thread().enable_all().build().map_err(|e| e.to_string())?;
+    let label = format!("backpressure-keepalive-{}-cancel{cancel_after_ms}ms", mode_name(compressed));
+    let reply: Vec<u8> = if compressed { vec![1, 3, 0, 0] } else { vec![4, 3, 0, 0] };
+    let reply2 = reply.clone();
+    struct Out {
+        flood: usize,
+        first_read_cancelled: bool,
+        second_read: ReadResult,
+        server_got: Vec<Vec<u8>>,
+    }
+    let out: Result<Out, String> = rt.block_on(async {
+        let lsock = TcpSocket::new_v4().map_err(|e| e.to_string())?;
+        let _ = lsock.set_recv_buffer_size(4096);
+        lsock.bind("127.0.0.1:0".parse().unwrap()).map_err(|e| e.to_string())?;
+        let listener = lsock.listen(8).map_err(|e| e.to_string())?;
+        let addr = listener.local_addr().map_err(|e| e.to_string())?;
+        let (stalled_tx, stalled_rx) = tokio::sync::oneshot::channel::<()>();
+        let (cancelled_tx, cancelled_rx) = tokio::sync::oneshot::channel::<()>();
+        let server = tokio::spawn(async move {
+            let Ok((tcp, _)) = listener.accept().await else { return vec![] };
+            let Ok(mut ws) = tokio_tungstenite::accept_async(tcp).await else { return vec![] };
+            // not reading: wait until the client's writes stall, then send the keep-alive
+            if stalled_rx.await.is_err() {
+                return vec![];
+            }
+            if ws.send(Message::Binary(reply2.clone())).await.is_err() {
+                return vec![];
+            }
+            if cancelled_rx.await.is_err() {
+                return vec![];
+            }
+            // now drain until the client has been silent for a while
+            let mut got: Vec<Vec<u8>> = vec![];
+            while let Ok(Some(Ok(m))) = tokio::time::timeout(Duration::from_millis(1500), ws.next()).await {
+                if let Message::Binary(b) = m {
+                    got.push(b);
+                }
+            }
+            got
+        });
+        let csock = TcpSocket::new_v4().map_err(|e| e.to_string())?;
+        let _ = csock.set_send_buffer_size(4096);
+        let tcp = tokio::time::timeout(WATCHDOG, csock.connect(addr)).await.map_err(|_| "connect watchdog".to_string())?.map_err(|e| e.to_string())?;
+        let (ws, _) = tokio::time::timeout(WATCHDOG, tokio_tungstenite::client_async(format!("ws://{addr}/connect"), tokio_tungstenite::MaybeTlsStream::Plain(tcp)))
+            .await
+            .map_err(|_| "ws handshake watchdog".to_string())?
+            .map_err(|e| e.to_string())?;
+        let mut framed = tokio_impl::Framed::new(Box::new(tokio_impl::WebsocketStream::from(ws)), Codec::new(mode_of(compressed)));
+        // flood until a write does not complete
+        let mut flood = 0usize;
+        let mut stalled = false;
+        while flood < 400_000 {
+            let pk = Packet::Tiny(Tiny { reqi: RequestId(9), subt: TinyType::Ping });
+            match tokio::time::timeout(Duration::from_millis(150), framed.write(pk)).await {
+                Ok(Ok(())) => flood += 1,
+                Ok(Err(e)) => return Err(format!("flood write failed: {e}")),
+                Err(_) => {
+                    stalled = true;
+                    break;
+                },
+            }
+        }
+        if !stalled {
+            return Err("the send path never filled up (no back-pressure reached)".to_string());
+        }
+        let _ = stalled_tx.send(());
+        // the read that decodes the keep-alive and queues the reply; cancelled while the reply cannot be flushed
+        let first = tokio::time::timeout(Duration::from_millis(cancel_after_ms), framed.read()).await;
+        let first_read_cancelled = first.is_err();
+        let _ = cancelled_tx.send(());
+        let second_read = if first_read_cancelled {
+            match tokio::time::timeout(WATCHDOG, framed.read()).await {
+                Ok(r) => classify(r),
+                Err(_) => return Err("second read watchdog".to_string()),
+            }
+        } else {
+            classify(first.unwrap())
+        };
+        // the application only waits from here on
+        let _ = tokio::time::timeout(Duration::from_millis(800), framed.read()).await;
+        let server_got = tokio::time::timeout(WATCHDOG, server).await.map_err(|_| "server watchdog".to_string())?.map_err(|e| e.to_string())?;
+        Ok(Out { flood, first_read_cancelled, second_read, server_got })
+    });
+    let o = out.map_err(|e| format!("{label}: {e}"))?;
+    p.evaluations += 1;
+    p.distinct(&label);
+    p.count(if o.first_read_cancelled { "bp_keepalive_read_cancelled_in_flush" } else { "bp_keepalive_read_completed_at_once" }, 1);
+    let replies = o.server_got.iter().filter(|m| **m == reply).count();
+    let replay = json!({"label": label, "flood_writes": o.flood, "first_read_cancelled": o.first_read_cancelled, "second_read": format!("{:?}", o.second_read), "messages_drained": o.server_got.len(), "replies_seen": replies});
+    if !matches!(&o.second_read, ReadResult::Packet(d) if d.contains("subt: None")) {
+        p.violation("C20/websocket-backpressure/keepalive-not-delivered", format!("{label}: the keep-alive was not handed to the caller: {:?}", o.second_read), replay.clone());
+    }
+    if replies != 1 {
+        p.violation(
+            "C20/websocket-backpressure/keepalive-reply-count",
+            format!("{label}: one keep-alive received under back-pressure (read cancelled in the flush: {}); after the peer drained {} messages it saw {replies} reply message(s) instead of exactly one", o.first_read_cancelled, o.server_got.len()),
+            replay,
+        );
+    }
+    Ok(())
+}
+
 /// WebsocketStream driven directly through AsyncRead with caller buffers of chosen sizes.
 fn run_direct(r: &mut Rng, bufsize: usize, p: &mut Part) -> Result<(), String> {
     let rt = tokio::runtime::Builder::new_current_thread().enable_all().build().map_err(|e| e.to_string())?;
@@ -476,17 +596,33 @@ pub fn run(ctx: &mut Ctx) -> (&'static str, String, bool) {
     let mut p = Part::new();
     let mut r = ctx.rng.fork(20);
     let mut done = 0;
-    for rep in 0..reps {
-        for compressed in MODES {
-            for style in 0..6u64 {
-                for close in [Close::Frame, Close::Abrupt] {
-                    let target = if style == 3 || rep % 2 == 1 { 6120 * 2 + r.usize_below(6120) } else { 200 + r.usize_below(3000) };
-                    let cut = (rep + style as usize) % 3 == 0;
-                    match run_session(&c, &mut r, compressed, style, close, target, cut, &mut p) {
-                        Ok(()) => done += 1,
-                        Err(e) => ctx.inconclusive(e),
+    {
+        use rayon::prelude::*;
+        let mut jobs = vec![];
+        for rep in 0..reps {
+            for compressed in MODES {
+                for style in 0..6u64 {
+                    for close in [Close::Frame, Close::Abrupt] {
+                        jobs.push((rep, compressed, style, close, r.fork(jobs.len() as u64 + 1)));
                     }
                 }
+            }
+        }
+        let parts: Vec<(Part, Result<(), String>)> = jobs
+            .into_par_iter()
+            .map(|(rep, compressed, style, close, mut r)| {
+                let mut p = Part::new();
+                let target = if style == 3 || rep % 2 == 1 { 6120 * 2 + r.usize_below(6120) } else { 200 + r.usize_below(3000) };
+                let cut = (rep + style as usize) % 3 == 0;
+                let res = run_session(&c, &mut r, compressed, style, close, target, cut, &mut p);
+                (p, res)
+            })
+            .collect();
+        for (part, res) in parts {
+            p.merge(part);
+            match res {
+                Ok(()) => done += 1,
+                Err(e) => ctx.inconclusive(e),
             }
         }
     }
@@ -501,6 +637,11 @@ pub fn run(ctx: &mut Ctx) -> (&'static str, String, bool) {
                 }
             }
             if rep == 0 {
+                for cancel_ms in [60u64, 400] {
+                    if let Err(e) = run_backpressure_keepalive(compressed, cancel_ms, &mut p) {
+                        ctx.inconclusive(e);
+                    }
+                }
                 if let Err(e) = run_backpressure_writes(&c, &mut r, compressed, if asan { 1500 } else { ctx.tier.pick(4000usize, 12000usize) }, &mut p, "C20") {
                     ctx.inconclusive(e);
                 }
@@ -522,7 +663,7 @@ pub fn run(ctx: &mut Ctx) -> (&'static str, String, bool) {
     ctx.assume("every session is ended by the server, so swallowed bytes show up as a short/different result sequence, never as a verdict by timeout (watchdog expiry = inconclusive)");
     (
         "exploration",
-        "frame streams (all kinds, unknown types, undecodable bodies, up to 3x the 6120-byte buffer) delivered as binary messages in six partition styles (one frame per message, several per message, split anywhere, > 1020-byte messages up to 64 KiB, 1-3 byte messages, boundary +-1) with text/ping/pong/empty messages interleaved x both size modes x {close frame, abrupt TCP close} x stream cut mid-frame; then 6 writes observed by the server; plus direct AsyncRead with caller buffers 1..2048; distinct = distinct (session, stream)".into(),
+        "frame streams (all kinds, unknown types, undecodable bodies, up to 3x the 6120-byte buffer) delivered as binary messages in six partition styles (one frame per message, several per message, split anywhere, > 1020-byte messages up to 64 KiB, 1-3 byte messages, boundary +-1) with text/ping/pong/empty messages interleaved x both size modes x {close frame, abrupt TCP close} x stream cut mid-frame; then 6 writes observed by the server; closure racing the last packets; 4000-12000 writes and a keep-alive answered under back-pressure (peer not reading, 4 KiB socket buffers) with the answering read cancelled in the flush; plus direct AsyncRead with caller buffers 1..2048; distinct = distinct (session, stream)".into(),
         false,
     )
 }
